@@ -24,10 +24,11 @@ fn words(letters: &str, max: usize) -> Vec<String> {
     out
 }
 
-fn table(fname: &str, ty: &str, letters: &str, max: usize) -> String {
+/// generic in the element type: the accessors of the vectors exist for numeric elements, those of the points for any Copy type
+fn table(fname: &str, ty: &str, letters: &str, max: usize, bound: &str) -> String {
     let fields = ["x", "y", "z", "w"];
     let mut s = format!(
-        "fn {fname}() -> Vec<(&'static str, fn(&{ty}<i32>) -> Vec<i32>)> {{\n    let mut t: Vec<(&'static str, fn(&{ty}<i32>) -> Vec<i32>)> = Vec::new();\n"
+        "fn {fname}<E: {bound}>() -> Vec<(&'static str, fn(&{ty}<E>) -> Vec<E>)> {{\n    let mut t: Vec<(&'static str, fn(&{ty}<E>) -> Vec<E>)> = Vec::new();\n"
     );
     for w in words(letters, max) {
         let comps: Vec<String> = (0..w.len()).map(|k| format!("r.{}", fields[k])).collect();
@@ -40,13 +41,13 @@ fn table(fname: &str, ty: &str, letters: &str, max: usize) -> String {
 fn main() {
     let out = env::var("OUT_DIR").unwrap();
     let mut src = String::new();
-    src.push_str(&table("swizzle_vector1", "Vector1", "x", 4));
-    src.push_str(&table("swizzle_vector2", "Vector2", "xy", 4));
-    src.push_str(&table("swizzle_vector3", "Vector3", "xyz", 4));
-    src.push_str(&table("swizzle_vector4", "Vector4", "xyzw", 4));
-    src.push_str(&table("swizzle_point1", "Point1", "x", 3));
-    src.push_str(&table("swizzle_point2", "Point2", "xy", 3));
-    src.push_str(&table("swizzle_point3", "Point3", "xyz", 3));
+    src.push_str(&table("swizzle_vector1", "Vector1", "x", 4, "cgmath::BaseNum"));
+    src.push_str(&table("swizzle_vector2", "Vector2", "xy", 4, "cgmath::BaseNum"));
+    src.push_str(&table("swizzle_vector3", "Vector3", "xyz", 4, "cgmath::BaseNum"));
+    src.push_str(&table("swizzle_vector4", "Vector4", "xyzw", 4, "cgmath::BaseNum"));
+    src.push_str(&table("swizzle_point1", "Point1", "x", 3, "Copy"));
+    src.push_str(&table("swizzle_point2", "Point2", "xy", 3, "Copy"));
+    src.push_str(&table("swizzle_point3", "Point3", "xyz", 3, "Copy"));
     fs::write(Path::new(&out).join("swizzle_table.rs"), src).unwrap();
     println!("cargo:rerun-if-changed=build.rs");
 }
